@@ -126,52 +126,89 @@ def rule_wiring(facts, rep, fn):
 
 
 def rule_write_all(facts, rep):
+    """The delivery loop of write_all, by abstract evaluation with the console's answers as case splits: for one run of three bytes,
+    every sequence of answers (accepts everything / accepts one byte / accepts nothing / is interrupted / fails) up to four calls is
+    followed; the bytes offered next are always exactly the ones not yet accepted, an interrupted call is repeated, `Ok(0)` ends in
+    WriteZero, any other error is returned as it is, and the call succeeds when everything was accepted."""
+    import abseval
     b = facts.body("verif_harness", H + "write_all")
-    style, text, body = run_loop(b)
-    wl = [hir.while_loop(n) for n in hir.walk(body) if n.get("k") == "loop" and n.get("src") == "While"]
-    ok = len(wl) == 1
-    cond_ok = False
-    if ok:
-        c = hir.simp(wl[0][0])
-        cond_ok = c.get("k") == "un" and c["op"] == "Not" and hir.is_call(hir.simp(c["e"]), "is_empty")
-    rep.check(ok and cond_ok, "write_all-loop", b["path"], "until-run-empty", "while !buf.is_empty()", loc(b))
-    m = ac.single_expr(wl[0][1]) if ok else {}
-    arms = {}
-    if m.get("k") == "match":
-        for a in m["arms"]:
-            seg = hir.last_seg(hir.pat_path(a["pat"]))
-            sub = a["pat"]["pats"][0] if a["pat"].get("pats") else {}
-            key = seg + ("(0)" if sub.get("k") == "lit" and sub.get("v") == 0 else "") + ("+guard" if "guard" in a else "")
-            arms[key] = a
-    a = arms.get("Ok(0)")
-    ok = a is not None and hir.diverges(a["body"]) and any(hir.is_def(n, "ErrorKind::WriteZero") for n in hir.walk(a["body"]))
-    rep.check(ok, "write_all-loop", b["path"], "Ok(0)→WriteZero", "", loc(b))
-    a = arms.get("Ok")
-    ok = False
-    if a is not None:
-        e = hir.simp(a["body"])
-        n = a["pat"]["pats"][0].get("name")
-        if e.get("k") == "assign":
-            r = hir.peel(e["r"])
-            ok = r.get("k") == "index" and hir.local_name(r["e"]) == hir.local_name(e["l"]) and \
-                hir.simp(r["i"]).get("k") == "struct" and hir.last_seg(hir.simp(r["i"])["path"].get("path")) == "RangeFrom" and hir.is_local(hir.simp(r["i"])["fields"][0]["e"], n)
-    rep.check(ok, "write_all-loop", b["path"], "Ok(n)→advance-by-n", "buf = &buf[n..]", loc(b))
-    a = arms.get("Err+guard")
-    ok = False
-    if a is not None:
-        g = hir.simp(a["guard"])
-        empty = not [x for x in hir.stmts_of(a["body"]) if not (hir.simp(x).get("k") == "tuple" and not hir.simp(x)["es"])]
-        ok = g.get("k") == "bin" and g["op"] == "Eq" and hir.is_call(hir.simp(g["l"]), "kind") and hir.is_def(g["r"], "ErrorKind::Interrupted") and empty
-    rep.check(ok, "write_all-loop", b["path"], "Interrupted→retry", "", loc(b))
-    a = arms.get("Err")
-    ok = False
-    if a is not None:
-        e = hir.simp(a["body"])
-        n = a["pat"]["pats"][0].get("name")
-        ok = e.get("k") == "ret" and hir.simp(e["e"]).get("ctor", "").endswith("Result::Err") and hir.is_local(hir.simp(e["e"])["args"][0], n)
-    rep.check(ok, "write_all-loop", b["path"], "other-errors-returned", "", loc(b))
-    tail = hir.simp(hir.stmts_of(b["hir"])[-1])
-    rep.check(tail.get("ctor", "").endswith("Result::Ok"), "write_all-loop", b["path"], "Ok-after-all-runs", "", loc(b))
+    rep.fn(b["path"])
+    DATA = "abc"
+    style = ("rec", {"fg": ("some", ("ctor", "anstyle::color::Color::Ansi", ("enum", "anstyle::color::AnsiColor::Red"))), "bg": ("none",),
+                     "underline": ("none",), "effects": ("ctor", "anstyle::effect::Effects", ("int", 0))})
+
+    def run(choices):
+        calls = []
+
+        def console(a_):
+            i = len(calls)
+            calls.append((a_[1], a_[2], a_[3]))
+            left = a_[3][1] if a_[3][0] == "str" else ""
+            if i >= 3 or ev.oracle(("full", i)):
+                return ("ok", ("int", len(left)))
+            if ev.oracle(("one-byte", i)):
+                return ("ok", ("int", min(1, len(left))))
+            if ev.oracle(("zero", i)):
+                return ("ok", ("int", 0))
+            if ev.oracle(("interrupted", i)):
+                return ("err", ("ioerr", "Interrupted", i))
+            return ("err", ("ioerr", "Other", i))
+        atoms = {"anstream::adapter::wincon::WinconBytes::extract_next": lambda a_: ("array", ("tuple", style, ("str", DATA))),
+                 "anstyle_wincon::stream::WinconStream::write_colored": console,
+                 "std::io::error::Error::kind": lambda a_: ("enum", "core::io::error::ErrorKind::" + (a_[0][1] if a_[0][0] == "ioerr" else "Other")),
+                 "std::io::error::Error::new": lambda a_: ("ioerr-new", a_[0]),
+                 "alloc::string::String::as_bytes": lambda a_: a_[0], "core::str::<impl str>::as_bytes": lambda a_: a_[0],
+                 "core::slice::<impl [T]>::is_empty": lambda a_: ("bool", a_[0] == ("str", ""))}
+        ev = abseval.Evaluator(facts, "verif_harness", atoms, inline_crates=("anstyle",))
+        ev.concrete_strings = True
+        ev.choices = choices
+        r = ev.call_fn("verif_harness", b["path"], [("sym", "raw"), ("sym", "state"), ("sym", "buf")])
+        return calls, r
+    bad = {"until-run-empty": [], "Ok(0)→WriteZero": [], "Ok(n)→advance-by-n": [], "Interrupted→retry": [], "other-errors-returned": [], "Ok-after-all-runs": []}
+    n_paths = 0
+    try:
+        results = abseval.explore(run)
+    except Unrecognised as ex:
+        results = []
+        for k in bad:
+            bad[k].append(f"not evaluable: {ex}")
+    for choices, (calls, r) in results:
+        n_paths += 1
+        delivered = 0
+        outcome = None
+        for i, (fg, bg, offered) in enumerate(calls):
+            if offered != ("str", DATA[delivered:]) or fg != ("some", ("enum", "anstyle::color::AnsiColor::Red")) or bg != ("none",):
+                bad["Ok(n)→advance-by-n"].append(f"call {i} offers {offered} with {fg}/{bg}; {delivered} bytes were accepted before")
+                break
+            if i >= 3 or choices.get(("full", i)):
+                delivered = len(DATA)
+            elif choices.get(("one-byte", i)):
+                delivered += 1
+            elif choices.get(("zero", i)):
+                outcome = "zero"
+                break
+            elif choices.get(("interrupted", i)):
+                continue
+            else:
+                outcome = ("err", ("ioerr", "Other", i))
+                break
+        if outcome == "zero":
+            if not (r[0] == "err" and r[1][0] == "ioerr-new" and str(r[1][1]).find("WriteZero") >= 0) or len(calls) != i + 1:
+                bad["Ok(0)→WriteZero"].append(f"after Ok(0): returns {r}, {len(calls)} calls")
+        elif outcome is not None:
+            if r != outcome or len(calls) != i + 1:
+                bad["other-errors-returned"].append(f"console error at call {i}: returns {r} after {len(calls)} calls")
+        else:
+            if delivered != len(DATA):
+                bad["until-run-empty"].append(f"stops after {delivered} of {len(DATA)} bytes: returns {r}")
+            elif r != ("ok", ("unit",)):
+                bad["Ok-after-all-runs"].append(f"everything accepted but returns {r}")
+            if any(choices.get(("interrupted", j)) and not choices.get(("full", j)) and not choices.get(("one-byte", j)) and not choices.get(("zero", j))
+                   for j in range(len(calls))) and delivered != len(DATA):
+                bad["Interrupted→retry"].append("an interrupted call was not repeated")
+    rep.count(n_paths)
+    for key, v in bad.items():
+        rep.check(not v and n_paths >= 20, "write_all-loop", b["path"], key, f"{n_paths} console behaviours evaluated {v[:1]}"[:400], loc(b))
 
 
 def rule_consumed(facts, rep):
